@@ -32,11 +32,11 @@ GPick == /\ phase = "loading"
 
 GLoadDone == /\ phase = "loading" /\ Len(pending) \in LoadLens
              /\ LET s == LoadPrefix \o pending
-                IN Load(ToSet(s)) /\ H([op |-> "load", recs |-> RecSeq(s)])
+                IN Load(s) /\ H([op |-> "load", recs |-> RecSeq(s)])
              /\ phase' = "run" /\ pending' = <<>> /\ UNCHANGED <<plan, pi>>
 
 GLoadFixed == /\ phase = "loading" /\ pending = <<>>
-              /\ \E s \in FixedLoads : Load(ToSet(s)) /\ H([op |-> "load", recs |-> RecSeq(s)])
+              /\ \E s \in FixedLoads : Load(s) /\ H([op |-> "load", recs |-> RecSeq(s)])
               /\ phase' = "run" /\ UNCHANGED <<pending, plan, pi>>
 
 Running == phase = "run" /\ pi <= Len(plan)
@@ -81,11 +81,16 @@ EmitTable == (hist = <<>> /\ pending = <<>>) =>
 R(n, ty) == <<n, ty, 1>>
 NestRecs == {R(n_d, "NS"), R(n_xd, "NS"), R(n_yxd, "A"), R(n_ed, "A"), R(n_f, "NS")}
 DeepRecs == {R(n_d, "NS"), R(n_xd, "NS"), R(n_yxd, "NS"), R(n_ed, "NS"), R(n_bc, "A")}
+(* a CNAME and other data at the same owner: which survives depends on the load order; d is a cut
+   (and x.d, e.d glue) only if its NS was loaded after its CNAME *)
+CnameRecs == {R(n_d, "NS"), R(n_d, "CNAME"), R(n_xd, "A"), R(n_xd, "CNAME"), R(n_ed, "A")}
+CnameRecs2 == {R(n_d, "NS"), R(n_xd, "NS"), R(n_xd, "CNAME"), R(n_yxd, "CNAME"), R(n_yxd, "A")}
 MixRecs == {R(n_xd, "A"), R(n_d, "NS"), R(n_yxd, "NS"), R(n_d, "A"), R(n_xd, "NS")}
 ApexRecs == {SOA, ApexNS, R(n_d, "NS"), R(n_xd, "NS"), R(n_yxd, "A")}
 ChainRecs == {R(n, ty) : n \in {n_d, n_xd, n_yxd, n_ed}, ty \in {"NS", "A"}} \cup {R(n_f, "NS")}
 AllRecs(NN, TT, KK) == {<<n, ty, k>> : n \in NN, ty \in TT, k \in KK}
-URecs == AllRecs(UNames, {"NS", "A", "TXT"}, {1})
+CnRecs(NN) == AllRecs(NN \ {n_apex}, {"CNAME"}, {1})
+URecs == AllRecs(UNames, {"NS", "A", "TXT"}, {1}) \cup CnRecs(UNames)
 WRecs == AllRecs(WNames, {"NS", "A", "TXT"}, {1, 2})
 Std == <<SOA, ApexNS>>
 F_flat == Std \o <<R(n_ns, "A"), R(n_f, "A"), R(n_bc, "TXT")>>
@@ -95,15 +100,17 @@ F_deep == Std \o <<R(n_d, "A"), R(n_xd, "NS"), R(n_yxd, "NS"), R(n_ed, "NS")>>
 F_rev == Std \o <<R(n_yxd, "NS"), R(n_xd, "NS"), R(n_d, "NS"), R(n_ed, "A")>>
 FixedAll == {F_flat, F_cut, F_nest, F_deep, F_rev}
 FixedNested == {F_nest, F_deep, F_rev}
+F_cn == Std \o <<R(n_d, "NS"), R(n_xd, "CNAME"), R(n_ed, "A"), R(n_f, "NS")>>
 FixedTwo == {F_nest, F_rev}
+FixedCname == {F_nest, F_cn}
 FixedOne == {F_flat}
 NoLoads == {}
 NoRecs == {}
 NoPrefix == <<>>
-WRecsOne == AllRecs(WNames, {"NS", "A", "TXT"}, {1})
+WRecsOne == AllRecs(WNames, {"NS", "A", "TXT"}, {1}) \cup CnRecs(WNames)
 (* every name of the table as an owner: many sibling cuts, internal B-tree roots at t = 3, 4 *)
 BNames == TabSet
-BRecs == AllRecs(TabSet, {"NS", "A"}, {1})
+BRecs == AllRecs(TabSet, {"NS", "A"}, {1}) \cup CnRecs(TabSet)
 (* loads in ASCENDING canonical order of the first L table names: the right-most leaf of a B-tree
    filled in order cycles through every occupancy up to "exactly full", for every L one shape;
    with NS at every name that can be a sibling cut (top-level names other than d, and the
@@ -113,6 +120,7 @@ AscLoad(L, nsset) == Std \o [i \in 1..(L - 1) |->
                                R(NameTable[i + 1], IF NameTable[i + 1] \in nsset THEN "NS" ELSE "A")]
 FixedAsc == {AscLoad(L, {}) : L \in 6..Len(NameTable)} \cup {AscLoad(L, CutCandidates) : L \in 6..Len(NameTable)}
 CoreNames == {n_apex, n_d, n_xd, n_yxd, n_ed, n_f}
+NoApexCore == CoreNames \ {n_apex}
 (* plans (a .cfg file cannot spell tuples) *)
 P_0 == {<<>>}
 P_01 == {<<>>, <<1>>}
